@@ -27,6 +27,8 @@ import (
 	"os"
 	"path/filepath"
 	"strings"
+	"sync"
+	"sync/atomic"
 	"testing"
 	"time"
 
@@ -51,9 +53,22 @@ type c19NetCase struct {
 	Disabled bool         `json:"disable_timesafeguard"`
 }
 
+// c19Served counts, per server, the status answers (HTTP 200 with a time) it has given.
+var c19Served sync.Map // *httptest.Server address -> *int32
+
 func c19Server(p c19NetPeer, peers func() []string) *httptest.Server {
-	return httptest.NewTLSServer(http.HandlerFunc(func(w http.ResponseWriter, r *http.Request) {
+	var requests, served int32
+	srv := httptest.NewTLSServer(http.HandlerFunc(func(w http.ResponseWriter, r *http.Request) {
 		time.Sleep(time.Duration(p.D1Ms) * time.Millisecond)
+		if p.Kind == "flaky-off" && atomic.AddInt32(&requests, 1) == 1 {
+			// restarting: the first request fails; whoever asks again gets an answer, from a clock
+			// that is off by more than the limit
+			http.Error(w, "starting up", http.StatusServiceUnavailable)
+			return
+		}
+		if p.Kind != "http500" && p.Kind != "garbage" && p.Kind != "notime" {
+			defer atomic.AddInt32(&served, 1)
+		}
 		switch p.Kind {
 		case "http500":
 			http.Error(w, "no", http.StatusInternalServerError)
@@ -75,6 +90,15 @@ func c19Server(p c19NetPeer, peers func() []string) *httptest.Server {
 		w.Header().Set("Content-Type", "application/json")
 		w.Write(b)
 	}))
+	c19Served.Store(srv.URL, &served)
+	return srv
+}
+
+func c19AnsweredCount(srv *httptest.Server) int32 {
+	if v, ok := c19Served.Load(srv.URL); ok {
+		return atomic.LoadInt32(v.(*int32))
+	}
+	return 0
 }
 
 // c19DeadAddr is an address on which nothing listens (connection refused). It must not be a port
@@ -118,6 +142,7 @@ func c19NetExecute(c c19NetCase, dir string) (fail *vh.Failure, inconclusive boo
 		}
 	}()
 	offenders := 0
+	var flaky []*httptest.Server
 	for k, p := range c.Peers {
 		if p.Kind == "refused" {
 			addrs = append(addrs, c19DeadAddr(k))
@@ -128,6 +153,9 @@ func c19NetExecute(c c19NetCase, dir string) (fail *vh.Failure, inconclusive boo
 		addrs = append(addrs, strings.TrimPrefix(s.URL, "https://"))
 		if p.Kind == "off" {
 			offenders++
+		}
+		if p.Kind == "flaky-off" {
+			flaky = append(flaky, s)
 		}
 	}
 	list := append([]string{}, addrs...)
@@ -160,6 +188,14 @@ func c19NetExecute(c c19NetCase, dir string) (fail *vh.Failure, inconclusive boo
 		err = SynchronizedWithNetwork(self, list, "pw")
 	}
 	took := time.Since(t0)
+	// a peer that failed the first request is "a peer that did not answer" unless it was asked again
+	// and answered: then it is a peer that answered, with a clock that is off
+	for k, srv := range flaky {
+		if c19AnsweredCount(srv) > 0 {
+			offenders++
+			_ = k
+		}
+	}
 	if c.Disabled {
 		if err != nil {
 			return vh.Failf("net:disabled-but-refused", "safeguard disabled but the node refuses: %v", err), false
@@ -232,7 +268,7 @@ func TestVerifC19Network(t *testing.T) {
 		n := rapid.IntRange(0, 5).Draw(rt, "npeers")
 		silent, answering, off := 0, 0, 0
 		for k := 0; k < n; k++ {
-			p := c19NetPeer{Kind: rapid.SampledFrom([]string{"insync", "insync", "insync", "off", "refused", "refused", "http500", "garbage", "notime"}).Draw(rt, "kind")}
+			p := c19NetPeer{Kind: rapid.SampledFrom([]string{"insync", "insync", "insync", "off", "refused", "refused", "http500", "garbage", "notime", "flaky-off"}).Draw(rt, "kind")}
 			switch p.Kind {
 			case "insync":
 				p.OffsetMs = rapid.Int64Range(-400, 400).Draw(rt, "offset")
@@ -241,6 +277,10 @@ func TestVerifC19Network(t *testing.T) {
 				p.OffsetMs = rapid.SampledFrom([]int64{4000, -4000, 3600000, -3600000, 30000, -7000}).Draw(rt, "offoffset")
 				answering++
 				off++
+			case "flaky-off":
+				// close to the limit: an implementation that asks again must still measure soundly
+				p.OffsetMs = rapid.SampledFrom([]int64{2600, -2600, 2900, -2900, 5000}).Draw(rt, "flakyoffset")
+				silent++
 			default:
 				silent++
 			}
